@@ -70,6 +70,73 @@ class MyBase(BaseException):
     pass
 
 
+def _twin(tag):
+    class ValidationError(Exception):          # distinct classes that share a __name__ (pkg_a / pkg_b)
+        origin = tag
+    return ValidationError
+
+
+TwinA, TwinB = _twin('a'), _twin('b')
+
+
+class TimeoutError(Exception):                 # a user class shadowing a builtin name
+    pass
+
+
+import builtins as _b
+PAIR_CLASSES = [TwinA, TwinB, TimeoutError, _b.TimeoutError, KeyError, MyGlom]
+
+
+def fault_pair(e1: int, e2: int, site1: int, site2: int, kwi: int, a: int) -> bool:
+    """two faults in successive glom() calls: the second is judged on its own class, whatever was raised before
+    (classes sharing a __name__, a user class shadowing a builtin name)"""
+    start()
+    e2, site1, site2 = concretize(e2, 0, len(PAIR_CLASSES) - 1), concretize(site1, 0, 10), concretize(site2, 0, 10)
+    if e2 is OUT or site1 is OUT or site2 is OUT:
+        return True
+    first, second = PAIR_CLASSES[e1], PAIR_CLASSES[e2]
+    box = []
+
+    def mk(cls):
+        def raiser():
+            e = cls(a)
+            box.append(e)
+            raise e
+        return raiser
+    t1, s1 = make_site(site1, mk(first), 0)
+    try:
+        glom(t1, s1)
+    except Exception:
+        pass
+    del box[:]
+    t2, s2 = make_site(site2, mk(second), 0)
+    kw = dict(KW[kwi])
+    if 'default' in kw:
+        kw['default'] = DEFAULT_OBJ
+    try:
+        out = ('ret', glom(t2, s2, **kw))
+    except Exception as e:
+        out = ('exc', e)
+    reach('pair')
+    o = box[0]
+    default = kw.get('default', None if 'skip_exc' in kw else '_MISSING')
+    skip_exc = kw.get('skip_exc', () if default == '_MISSING' else GlomError)
+    matches = isinstance(o, skip_exc) if skip_exc != () else False
+    if matches and default != '_MISSING':
+        return (out[0] == 'ret' and out[1] is default) or fail(why='default expected', out=out)
+    if out[0] != 'exc':
+        return fail(why='should raise', out=out)
+    e = out[1]
+    if kw.get('glom_debug'):
+        return e is o or fail(why='debug object')
+    if first is not second and type(first) is type(second) and first.__name__ == second.__name__:
+        reach('same_name')
+    ok = isinstance(e, second) and isinstance(e, GlomError) and e.args == o.args
+    if second is not first and not issubclass(second, first) and isinstance(e, first) and first is not KeyError:
+        return fail(why='second error is an instance of the class raised by the EARLIER call', e=type(e).__mro__)
+    return ok or fail(why='class/args of the second error', e=e, mro=type(e).__mro__, second=second)
+
+
 NEXC = 16
 EXC_NAMES = ['KeyError', 'ValueError', 'TypeError', 'ZeroDivisionError', 'OSError', 'UnicodeDecodeError', 'StopIteration',
              'UserAttr', 'KwOnly', 'Arity', 'MyGlom', 'MyGlomInit', 'MyGlomKw', 'MyBase', 'AssertionError', 'LookupError']
@@ -287,10 +354,14 @@ def obligations(tier):
                 fx['xs'] = []
                 fx['thr'] = 0
             obs.append(Ob(fault_matrix, fixed=fx, pre=pre, name='fault_%s_%s' % (SITE_NAMES[site], EXC_NAMES[exc])))
+    for e1 in range(len(PAIR_CLASSES)):
+        obs.append(Ob(fault_pair, fixed={'e1': e1, 'site1': 0, 'site2': 2}, pre='0 <= e2 < %d and (kwi == 0 or kwi == 4 or kwi == 6)' % len(PAIR_CLASSES),
+                      name='fault_pair_%d' % e1))
     for which in range(NOWN):
         obs.append(Ob(own_failures, fixed={'which': which}, pre='0 <= kwi < %d' % nkw, name='own_failures_%d' % which))
     obs.append(Ob(fault_matrix, fixed={'site': 3, 'exc': 1}, pre='0 <= kwi < 8 and len(xs) <= 3', twin='no_fault', name='fault_list_ValueError'))
     obs.append(Ob(fault_matrix, fixed={'site': 3, 'exc': 1}, pre='0 <= kwi < 8 and len(xs) <= 3', twin='defaulted', name='fault_list_ValueError'))
     obs.append(Ob(fault_matrix, fixed={'site': 3, 'exc': 1}, pre='0 <= kwi < 8 and len(xs) <= 3', twin='propagated', name='fault_list_ValueError'))
     obs.append(Ob(own_failures, fixed={'which': 0}, pre='0 <= kwi < 8', twin='own', name='own_failures_0'))
+    obs.append(Ob(fault_pair, fixed={'e1': 0, 'site1': 0, 'site2': 2}, pre='0 <= e2 < %d and (kwi == 0 or kwi == 4 or kwi == 6)' % len(PAIR_CLASSES), twin='same_name', name='fault_pair_0'))
     return obs
